@@ -38,7 +38,7 @@ class Check(core.PropertyCheck):
     MON = "Mon_Intercept"
     REQUIRED_WITNESSES = _witnesses()
     REQUIRED_ACTIONS = ("Arrive", "Resume", "Kill", "EditMsg", "Run")
-    PROCS = 4
+    PROCS = 1  # a fork pool is slower here: the parent holds the parsed state graphs (copy-on-write faults)
     ASSUMPTIONS = (
         "one client connection; transports are fakes that record writes; open_connection always succeeds; a connection "
         "task reports ConnectionClosed when close_connection cancels it (as handle_connection does)",
